@@ -210,6 +210,17 @@ func (c *aeCtx) feasible(w *world) bool {
 								all = false
 								break
 							}
+							if bt.kind == akNil {
+								// two non-nil pointers / errors need not be the same value
+								pp, ok1 := w.pos[posKey(b, p)]
+								pq, ok2 := w.pos[posKey(b, q)]
+								if !ok1 || !ok2 || pp != 0 || pq != 0 {
+									all = false
+									break
+								}
+								any = true
+								continue
+							}
 							if bm := f.get(b); bm[p][q] != 0 {
 								all = false
 								break
